@@ -691,10 +691,14 @@ def image_renderer(ctx: Ctx, py: PyProgram) -> None:
     bad = []
     if panel.size != (240, 32):
         ctx.violation("C15.2/image-renderer", key_of(HD_PY, "render_combined_image", "panel size"), f"combined image is {panel.size}, the panel is (240, 32)", f"{HD_PY}:{rc.lineno}")
-    for (row, col), v in ref.items():
-        n += 1
-        if panel.px.get((col, row)) != v:
-            bad.append(((row, col), v, panel.px.get((col, row))))
+    for row in range(32):
+        for col in range(240):
+            n += 1
+            v = ref.get((row, col))
+            if v is None:
+                continue   # the stitcher itself leaves this pixel undriven: reported by C15.2/pixel-cover
+            if panel.px.get((col, row)) != v:
+                bad.append(((row, col), v, panel.px.get((col, row))))
     if bad:
         (row, col), v, got = bad[0]
         ctx.violation("C15.2/image-renderer", key_of(HD_PY, "render_combined_image", "pixel map differs from get_display_buffer"),
